@@ -680,8 +680,14 @@ def model(ir, tape, faults):
 
     def do_try(st, env):
         body, cb, fb = st[1], st[2], st[3]
-        if pend_exc[0] > 0 or pend_ret[0] > 0:
+        # K-try-inside-pending-finally: the pending exception is one VM-wide flag and the pending return one slot per
+        # fiber. An inner statement WITH a finally clause consults/consumes them at its EndFinally; an inner catch that
+        # actually catches something clears the flag. An inner try/catch that completes without catching touches neither.
+        inside_pending = pend_exc[0] > 0 or pend_ret[0] > 0
+        if inside_pending and fb is not None:
             taint.add("K-try-inside-pending-finally")
+        if inside_pending:
+            probes.inc("try_catch_entered_inside_pending_finally")
         probes.inc("try_entered")
         saved = cur_ctx[0]
         exc = None
@@ -694,6 +700,8 @@ def model(ir, tape, faults):
                 if cb is None:
                     raise
                 from_body = False
+                if pend_exc[0] > 0:
+                    taint.add("K-try-inside-pending-finally")
                 probes.inc("handler_entered")
                 cur_ctx[0] = "catch"
                 try:
